@@ -199,6 +199,28 @@ def analyse_decorate(ctx, repo, prop_rules):
                            f"{case}: pop calls {pops}, expected {want} (a Result-Code must never be sent alongside an "
                            f"Experimental-Result, and nothing may be removed otherwise)", key=case)
 
+    if "rcremoval" in prop_rules and "eflag" in prop_rules:
+        ctx.clause = "4-result-code-removal"
+        # the E flag is decided from the Result-Code the handler supplied: the family predicates must be evaluated before
+        # the Result-Code can be removed on the same path
+        bad = None
+        for p in enum_paths(fn.body, loops="skip"):
+            pop_i = None
+            for i, e in enumerate(p.events):
+                node = e[1] if e[0] in ("stmt", "cond") else None
+                if node is None:
+                    continue
+                txt = ast.unparse(node)
+                if e[0] == "stmt" and f"{A}.pop('result_code_avp')" in txt and pop_i is None:
+                    pop_i = i
+                if pop_i is not None and i > pop_i and any(f"is_{k}xxx_failure({A})" in txt for k in (3, 4, 5)):
+                    bad = node
+        ctx.decide(bad is None, "R-ORDER/eflag-before-removal", construct, where,
+                   "the failure-family predicates read the Result-Code before it can be removed",
+                   "on some path `answer.pop('result_code_avp')` runs before the 3xxx/4xxx/5xxx predicates are evaluated: with an "
+                   "Experimental-Result present the predicates no longer see the handler's Result-Code and an error answer leaves "
+                   "without the E flag", key="order")
+
     if "attrguard" in prop_rules:
         ctx.clause = "5-attribute-guard"
         bad = attribute_guard_violations(fn, {A, R})
